@@ -94,6 +94,8 @@ def run(ctx):
     corr_bad = judge_bad = inv_bad = 0
     bal = {"cases": 0, "changed": 0, "corr_bad": 0, "judge_bad": 0, "nodes": 0}
     per_clause = {}
+    bom_docs = 0
+    bom_langs = set()
     for line in out.split("\n"):
         if not line.strip():
             continue
@@ -143,6 +145,12 @@ def run(ctx):
                 nontrivial = True
         if nontrivial:
             distinct.add(hashlib.sha1(spec.encode()).hexdigest())
+        # BOM-prefixed documents whose first token follows the byte order mark directly (=> nodes on row 0)
+        sp = spec.split(" ")
+        if len(sp) >= 2 and sp[1].startswith("efbbbf") and len(sp[1]) > 6 and sp[1][6:8] not in ("20", "09", "0a", "0d") \
+                and int(kv.get("raw", "0") or 0) > 0:
+            bom_docs += 1
+            bom_langs.add(lang)
         if len(samples) < 6 and evals % 397 == 1:
             samples.append({"case": cid, "spec": spec[:200], "verdict": {"corr": corr[:80], "inv": inv, "judge": judge[:120]}, "stats": kv})
         if judge != "ok":
@@ -183,12 +191,13 @@ def run(ctx):
     ctx.coverage.update({
         "evaluations": evals, "distinct_nontrivial": len(distinct),
         "rule": "zoo languages x (grammar-directed sentences, byte-mutated sentences, each also after 1-4 random edits + re-parse with the "
-                "edited old tree, and special documents: empty, whitespace, BOM, BOM in the middle, CRLF, multi-line, NUL, invalid UTF-8 "
+                "edited old tree, and special documents: empty, whitespace, BOM directly before the first token / before the rendered sentence / multi-line / before a newline, BOM in the middle, CRLF, multi-line, NUL, invalid UTF-8 "
                 "(7 kinds), NBSP/U+2028/astral, random bytes, token soup, long repeats, deep nesting); one evaluation = one real tree with "
                 "full internal dump + public-API walk; non-trivial := the tree has a hidden node with visible children, an alias, an extra, "
                 "an ERROR, a MISSING, a multi-line token or a zero-width token; distinct by hash of (language, text, edits)",
         "samples": samples, "kinds": kinds, "document_bytes": sizes, "trees_with_feature": feat, "node_totals": totals,
         "explorer_summary": last,
+        "bom_prefixed_documents_with_a_token_on_row_0": {"documents": bom_docs, "languages": len(bom_langs)},
         "correspondence": {"compared": evals, "equal": evals - corr_bad, "inner_nodes_recomputed": totals["inner"]},
         "judge": {"evaluated": evals, "passed": evals - judge_bad},
         "failing_clauses": per_clause,
@@ -196,6 +205,10 @@ def run(ctx):
     })
     if evals == 0 and bal["cases"] == 0:
         ctx.oblige("run:driver-produced-results", False, out[-500:])
-    elif not ctx.replay and len(distinct) * 4 < evals:
-        ctx.oblige("generator:nontrivial-fraction>=25%", False, "%d of %d" % (len(distinct), evals))
+    elif not ctx.replay:
+        if len(distinct) * 4 < evals:
+            ctx.oblige("generator:nontrivial-fraction>=25%", False, "%d of %d" % (len(distinct), evals))
+        # seed-independent by construction: corpus/c02.txt + the `bom` / `bom-multiline` special documents of every language
+        ctx.oblige("generator:BOM-prefixed-documents-with-a-token-on-row-0-for->=20-languages(UTF-8 EF BB BF; C02 drives UTF-8 only)",
+                   len(bom_langs) >= 20, "%d documents, %d languages" % (bom_docs, len(bom_langs)))
     return ctx.finish()
